@@ -481,6 +481,10 @@ func runCacheSession(s CacheSession) CacheSessionResult {
 				delete(sd.pullH, id)
 			}
 		case "idrename":
+			// never keep an entity across calls that may evict it: resolve the user identity again
+			if u, rerr := sd.c.Identities().Resolve(sd.user.Id()); rerr == nil {
+				sd.user = u
+			}
 			err = sd.user.Mutate(sd.rep.Repo, func(m *identity.Mutator) { m.Name = m.Name + " " + a.Text })
 			if err == nil {
 				err = sd.user.CommitAsNeeded()
